@@ -91,7 +91,7 @@ def stepD (d : D) (fs : List String) : D × String :=
     | _ => (d, "bad-op")
   | ["obs"] =>
     let d' := settle 400 d
-    (d', s!"denied={tf d'.c.sh.denied} members={d'.c.sh.members.length} codes={d'.c.sh.codes.length}")
+    (d', s!"denied={tf d'.c.sh.denied} members={d'.c.sh.members.length} codes={d'.c.sh.codes.length} A={tf d'.c.sh.flagA} B={tf d'.c.sh.flagB}")
   | _ => (d, "bad-op")
 
 def modes : List (String × IO Unit) := [("sched", runLoop ({} : D) stepD)]
